@@ -43,7 +43,8 @@ def gen_history(rng: random.Random) -> dict:
         kind = rng.choices(['train', 'load', 'restart', 'crash-train'], [4, 7, 2, 0.8])[0]
         target = rng.choice(sorted(releases))
         if kind == 'train':
-            ops.append({'op': 'train', 'target': target})
+            ops.append({'op': 'train', 'target': target,
+                        'interleave': round(rng.random(), 3) if rng.random() < 0.2 else None})
         elif kind == 'crash-train':
             ops.append({'op': 'train', 'target': target, 'crash': round(rng.random(), 4)})
         elif kind == 'restart':
@@ -214,7 +215,49 @@ class Run:
                 if res.ok and res.oplog:
                     crash = {'at': min(len(res.oplog) + 1, 1 + int(op['crash'] * (len(res.oplog) + 1))), 'cut': None}
             child = self.incarnation()
-            res = child.call('train', args, crash)
+            pause = None
+            if crash is None and op.get('interleave') is not None and self.model[target]:
+                pause = {'at': 1 + int(op['interleave'] * self.nstates.get(target, 1)), 'match': ['.bin']}
+            res = child.call('train', args, crash, pause)
+            if res.status == 'paused':
+                # a rival trainer (another process) commits while this incremental training sits between two loads of
+                # its previous states: it must still continue from ONE generation
+                self.stats['fault:rival-training-committed-between-state-loads'] += 1
+                self.ntok += 1
+                rival_token, rival_hp = self.ntok, 70 + idx
+                with boxmod.Child(self.box.root, OPTABLE, self.seed * 73 + idx,
+                                  env={'LC_LOG': self.logfile + '.other', 'LC_HP': str(rival_hp)}) as other:
+                    rres = other.call('train', {'project': project, 'release': release, 'token': rival_token})
+                rwhere = f'{where} [rival training, token {rival_token}]'
+                if not rres.ok:
+                    raise base.Violation('action-failed', f'{rwhere}: {rres.value}', mode='train')
+                self.model[target].append(self.check_train(rwhere, target, rres.value, rival_token, hp=rival_hp))
+                res = child.resume()
+                where += ' [a rival training committed between its state loads]'
+                if not res.ok:
+                    raise base.Violation('action-failed', f'{where}: {res.value}', mode='train')
+                verdict = None
+                for base_gen in (len(self.model[target]) - 1, len(self.model[target])):  # continued from g or from g+1
+                    saved = self.model[target]
+                    self.model[target] = saved[:base_gen]
+                    try:
+                        new = self.check_train(where, target, res.value, token)
+                        self.model[target] = saved + [new]
+                        verdict = None
+                        break
+                    except base.Violation as err:
+                        self.model[target] = saved
+                        verdict = verdict or err
+                if verdict is not None:
+                    prevs = {r['actor']: r['prev'] for r in res.value['log'] if r.get('event') == 'train'}
+                    raise base.Violation('mixed-generations', f'{where}: the re-trained actors continued from states of '
+                                                              f'different generations: {prevs}', mode='train')
+                if res.value['generation'] != len(self.model[target]):
+                    raise base.Violation('generation-number', f'{where}: committed generation {res.value["generation"]}, '
+                                                              f'expected {len(self.model[target])}', mode='train')
+                self.nstates[target] = res.value['nstates']
+                self.stats['op:train'] += 1
+                return
             if res.status == 'crashed':
                 self.child = None
                 self.stats['fault:death-during-train'] += 1
